@@ -28,8 +28,8 @@ OsrRule == Rule("osr", <<IsPt(16)>>, HonestOsr(S).datagrams) @@ [captures |-> Ho
 R2Rule == Rule("rakp2", <<IsPt(18)>>, HonestRakp2(S).datagrams) @@ [captures |-> HonestRakp2(S).captures]
 R4Rule == Rule("rakp4", <<IsPt(20)>>, HonestRakp4(S).datagrams) @@ [captures |-> HonestRakp4(S).captures]
 Handshake == << OsrRule, R2Rule, R4Rule >>
-InSessReply(netfnRsp, cmd, cc, data) == SessPacket(S, <<1, 0, 0, 0>>, B(MsgRspBytes(129, netfnRsp, 0, 1, 0, cmd, cc, data)), [i \in 1..16 |-> i])
-NullReply(netfnRsp, cmd, cc, data) == NullWrapper(0, B(MsgRspBytes(129, netfnRsp, 0, 1, 0, cmd, cc, data)))
+InSessReply(netfnRsp, cmd, cc, data) == SessPacket(S, <<1, 0, 0, 0>>, MsgRspE(EchoS, netfnRsp, 0, cmd, cc, data), [i \in 1..16 |-> i])
+NullReply(netfnRsp, cmd, cc, data) == NullWrapper(0, MsgRspE(EchoN, netfnRsp, 0, cmd, cc, data))
 
 \* fault -> the datagrams the BMC answers the faulty step with
 Faulty(f, goodT, busyT) == CASE f = "blackhole" -> <<>> [] f = "late" -> Late(goodT) [] f = "garbage" -> Now(Garbage) [] f = "temp" -> NowValid(busyT, 192)
